@@ -526,6 +526,19 @@ def standard_check(spec, tier, seed):
                 continue
             sp2 = dict(spec, corr=ph["corr"], patterns=ph.get("patterns", {}))
             m2, v2 = classify(res, sp2, l2, j2, known)
+            if m2 and not v2 and "search_args" in ph:
+                log("correspondence %s broken on %d case(s); searching for a property-violating input" % (ph["corr"], len(m2)))
+                for k in range(ph.get("search_rounds", 3)):
+                    rc3, out3, _ = run_driver(drv2, ph["search_args"](seed * 1000 + k + 1), timeout=ph.get("timeout", 1500))
+                    l3 = [l for l in out3.splitlines() if l and not l.startswith("#")]
+                    if rc3 != 0 or not l3:
+                        continue
+                    j3, e3 = judge_cases(l3, ph["corr"], tmpdir, shard=ph.get("shard", 2000))
+                    if e3:
+                        continue
+                    _, v2 = classify(res, sp2, l3, j3, known, record_mismatch=False)
+                    if v2:
+                        break
             if m2 and not v2:
                 i = m2[0]
                 res.violation("correspondence %s no longer checks (model and implementation differ) and no property-violating input was found" % ph["corr"],
